@@ -61,7 +61,7 @@ impl TypeEntry {
                     .id_to_entry
                     .get(type_id)
                     .unwrap()
-                    .output_value(type_space, value, scope);
+                    .output_value(type_space, value, scope)?;
                 let ident = format_ident!("{}", name);
                 quote! { #scope #ident ( #inner )}
             }
